@@ -10,6 +10,16 @@ from gambatools.regexpVisitor import *
 from gambatools.regexpLexer import *
 
 
+from antlr4.error.ErrorListener import ErrorListener
+
+
+class RaiseErrorListener(ErrorListener):
+    """Turns syntax errors into exceptions (by default ANTLR reports them on stderr and continues parsing)"""
+
+    def syntaxError(self, recognizer, offendingSymbol, line, column, msg, e):
+        raise RuntimeError('syntax error in regular expression at position {}: {}'.format(column, msg))
+
+
 def concatenation(expressions):
     if len(expressions) == 1:
         return expressions[0]
@@ -54,8 +64,14 @@ class regexpVisitor(regexpVisitor):
 
 def parse_regexp(text):
     lexer = regexpLexer(InputStream(text))
+    lexer.removeErrorListeners()
+    lexer.addErrorListener(RaiseErrorListener())
     stream = CommonTokenStream(lexer)
     parser = regexpParser(stream)
+    parser.removeErrorListeners()
+    parser.addErrorListener(RaiseErrorListener())
     tree = parser.expression()
+    if stream.LA(1) != Token.EOF:
+        raise RuntimeError('syntax error in regular expression: unexpected input at position {}'.format(stream.LT(1).column))
     visitor = regexpVisitor()
     return visitor.visit(tree)
